@@ -14,3 +14,4 @@ import Modbus.Props.C04Dec
 #print axioms Modbus.C04Dec.req_decoded_rtu_wellformed_partial
 #print axioms Modbus.C04Dec.req_decoded_custom_rtu_roundtrip
 #print axioms Modbus.C04Dec.req_decoded_rtu_roundtrip_fails
+#print axioms Modbus.C04Dec.rsp_decoded_rtu_roundtrip_exact_partial
